@@ -21,13 +21,16 @@ sys.path.insert(0, os.path.dirname(os.path.abspath(__file__)))
 import vlib
 
 PID = "C01"
-THEOREM_MODULES = ["GuppyVerif.Props.C01"]
+THEOREM_MODULES = ["GuppyVerif.Props.C01"]  # Wiring (DFContainer) + DFVarIdx (variable scoping) theorems
 DRIVER = "C01"
 RULE = (
-    "two case families. wiring: (type tree depth<=3 with copyable/linear/affine leaves, struct|tuple nodes of arity 0-4, "
+    "three case families. varidx: (parameter list of kinds type/linear type/nat const/int const up to 6, monomorphisation vector or no "
+    "context) run on the real type_var_to_hugr / const_var_to_hugr / instantiate_partial and on the Lean model; non-trivial = a kept "
+    "parameter after a monomorphised one. wiring: (type tree depth<=3 with copyable/linear/affine leaves, struct|tuple nodes of arity 0-4, "
     "%ret flag, script of 1-12 dfg[place]=wire / dfg[place] ops on sub-places; 70% of scripts respect ownership) run on the real "
     "DFContainer and on the Lean model; non-trivial = some struct/tuple place is read after a write (packing happens). "
-    "program: corpus seeds + generated Guppy programs (struct/tuple/linear stress generator + implicit-drop generator over all affine type shapes + general typed generator: control "
+    "program: corpus seeds + generated Guppy programs (struct/tuple/linear stress generator + implicit-drop generator over all affine type shapes + generic/comptime generator "
+    "(parameter lists mixing monomorphised non-nat @comptime args with kept nat/type parameters in every order) + general typed generator: control "
     "flow, tuples, structs across loops, generics, comptime args, closures, qubits through branches, arrays, affine drops, early "
     "returns) lowered by the real compiler and structurally validated; rejected programs (GuppyError) are not cases; "
     "non-trivial = accepted program; distinct by sha1 of the source"
@@ -50,7 +53,8 @@ MANIFEST = {
     "values; unpack-then-pack denotes the stored value (independent op interpreter); on a place stored as leaves getitem never fails, "
     "every leaf wire is consumed by exactly one MakeTuple, linear sub-places are forgotten; and for every script of sub-place assignments and "
     "(moving) reads accepted by an independent reference store semantics, every read returns a wire denoting the reference value "
-    "(DFContainer is a correct store; false before repair 32e45a7). The model is tied to compiler/core.py on every "
+    "(DFContainer is a correct store; false before repair 32e45a7). Also proved (Model/DFVarIdx): under any partial monomorphization "
+    "every kept parameter is lowered to a HUGR variable that the monomorphised FuncDefn's parameter list binds to the same parameter, injectively. The models are tied to compiler/core.py on every "
     "run by same-input correspondence against the real DFContainer (quick 400 / thorough 12000 scripts) with an independent oracle on the "
     "real Hugr. The rest of C01 (whole programs lower to structurally valid HUGR) is NOT proved: it is searched by lowering generated accepted "
     "programs with the real compiler and checking them with a harness-side structural validator (quick ~180 / thorough ~3300 programs + ~580 programs of the repo test-suite).",
@@ -429,6 +433,158 @@ def _split_top(s: str) -> list[str]:
     return out + [cur]
 
 
+# --- generic / comptime generator: parameter lists that mix parameters Guppy monomorphises away (non-nat
+#     `@comptime` arguments) with parameters that stay HUGR type parameters (nat vars, nat comptime args, type
+#     vars, linear type vars) in every order; bodies and signatures mention the kept variables (array lengths,
+#     range(n), n as a value, values of type T); generic helpers call generic helpers (variable type args)
+def gen_generic_program(rng) -> str:
+    hdr = [
+        "from guppylang.std.quantum import qubit, h, measure, discard",
+        'T = guppy.type_var("T")',
+        'U = guppy.type_var("U")',
+        'Q = guppy.type_var("Q", copyable=False, droppable=False)',
+        'n = guppy.nat_var("n")',
+        'm = guppy.nat_var("m")',
+        "",
+    ]
+    funcs: list[dict] = []
+
+    def mk_helper(idx: int, callees: list[dict]) -> dict:
+        kinds = []
+        pool = ["cint", "cint", "cbool", "cfloat", "cnat", "arr_n", "arr_n", "arr_m", "tv", "uv", "qv", "int", "arrT_n"]
+        for _ in range(rng.randrange(2, 6)):
+            kinds.append(rng.choice(pool))
+        if not any(k in ("cint", "cbool", "cfloat") for k in kinds):
+            kinds.insert(rng.randrange(len(kinds) + 1), rng.choice(["cint", "cbool", "cfloat"]))
+        if not any(k in ("arr_n", "arr_m", "cnat", "tv", "qv", "arrT_n") for k in kinds):
+            kinds.insert(rng.randrange(len(kinds) + 1), rng.choice(["arr_n", "tv", "cnat"]))
+        if kinds.count("qv") > 1:
+            kinds = [k for i, k in enumerate(kinds) if k != "qv" or i == kinds.index("qv")]
+        if kinds.count("cnat") > 1:
+            kinds = [k for i, k in enumerate(kinds) if k != "cnat" or i == kinds.index("cnat")]
+        params, body = [], ["    s = 0"]
+        ret_opts = [("int", "s")]
+        for j, k in enumerate(kinds):
+            p = f"p{j}"
+            if k == "cint":
+                params.append((p, "int @comptime", k)); body.append(f"    s += {p}")
+            elif k == "cbool":
+                params.append((p, "bool @comptime", k)); body += [f"    if {p}:", "        s += 1"]
+            elif k == "cfloat":
+                params.append((p, "float @comptime", k)); body += [f"    if {p} > 1.0:", "        s += 2"]
+            elif k == "cnat":
+                params.append((p, "nat @comptime", k)); body += [f"    for i{j} in range({p}):", f"        s += i{j}"]
+            elif k in ("arr_n", "arr_m"):
+                v = k[-1]
+                own = rng.random() < 0.3
+                params.append((p, f"array[int, {v}]" + (" @owned" if own else ""), k))
+                r = rng.random()
+                if r < 0.5:
+                    body += [f"    for i{j} in range({v}):", f"        s += {p}[i{j}]"]
+                elif r < 0.75:
+                    body.append(f"    s += int({v})")
+                if own:
+                    ret_opts.append((f"array[int, {v}]", p))
+            elif k == "arrT_n":
+                params.append((p, "array[T, n]", k)); body.append("    s += int(n)")
+            elif k == "tv":
+                params.append((p, "T", k)); ret_opts.append(("T", p))
+            elif k == "uv":
+                params.append((p, "U", k)); ret_opts.append(("tuple[U, int]", f"({p}, s)"))
+            elif k == "qv":
+                params.append((p, "Q @owned", k)); ret_opts.append(("Q", p))
+            else:
+                params.append((p, "int", k)); body.append(f"    s += {p}")
+        # call an earlier helper with our own (variable-typed) arguments where possible
+        for c in callees:
+            if rng.random() < 0.6:
+                args = call_args(c, {k: p for p, t, k in params if "@owned" not in t}, inside=True)
+                if args is not None:
+                    body.append(f"    {'_r' + str(len(body))} = {c['name']}({', '.join(args)})")
+        qs = [p for p, _t, k in params if k == "qv"]
+        # a linear argument must be returned
+        if qs:
+            ret = ("Q", qs[0])
+        else:
+            owned = [(t, e) for t, e in ret_opts if t.startswith("array[int")]
+            ret = rng.choice(owned) if owned and rng.random() < 0.6 else rng.choice([r for r in ret_opts if not r[0].startswith("array[int")] or ret_opts)
+        used_ret_arrays = ret[1]
+        name = f"g{idx}"
+        src = ["@guppy", f"def {name}(" + ", ".join(f"{p}: {t}" for p, t, _k in params) + f") -> {ret[0]}:"] + body + [f"    return {ret[1]}", ""]
+        return {"name": name, "params": params, "ret": ret[0], "src": src}
+
+    def call_args(c: dict, have: dict, inside: bool):
+        """argument expressions for calling `c`; `have` maps kinds to a variable of the caller"""
+        out = []
+        used: set[str] = set()
+        uv = rng.choice(["1.5", "(1, True)", "7"])
+        for _p, t, k in c["params"]:
+            if k == "cint":
+                out.append(str(rng.randrange(1, 9)))
+            elif k == "cbool":
+                out.append(rng.choice(["True", "False"]))
+            elif k == "cfloat":
+                out.append(rng.choice(["0.5", "2.5"]))
+            elif k == "cnat":
+                out.append(str(rng.randrange(1, 4)))
+            elif k in ("arr_n", "arr_m"):
+                if "@owned" in t:
+                    if inside:
+                        return None
+                    out.append("array(" + ", ".join(str(rng.randrange(9)) for _ in range(LEN[k[-1]])) + ")")
+                elif inside:
+                    # inside a generic helper only an array of the same length variable fits
+                    if k not in have or have[k] in used:
+                        return None
+                    used.add(have[k])
+                    out.append(have[k])
+                elif "a_" + k[-1] in used:
+                    out.append("array(" + ", ".join(str(rng.randrange(9)) for _ in range(LEN[k[-1]])) + ")")
+                else:
+                    used.add("a_" + k[-1])
+                    out.append("a_" + k[-1])
+            elif k == "arrT_n":
+                if inside:
+                    if "arrT_n" not in have or have["arrT_n"] in used:
+                        return None
+                    used.add(have["arrT_n"])
+                    out.append(have["arrT_n"])
+                else:
+                    out.append("array(" + ", ".join(TV for _ in range(LEN["n"])) + ")")
+            elif k == "tv":
+                out.append(have["tv"] if inside and "tv" in have else TV)
+            elif k == "uv":
+                out.append(have["uv"] if inside and "uv" in have else uv)
+            elif k == "qv":
+                if inside:
+                    return None
+                out.append("qubit()")
+            else:
+                out.append(str(rng.randrange(9)))
+        return out
+
+    LEN = {"n": rng.randrange(1, 4), "m": rng.randrange(1, 4)}
+    TV = rng.choice(["1", "True", "2.5"])
+    for i in range(rng.randrange(1, 4)):
+        funcs.append(mk_helper(i, funcs[:]))
+    main = ["@guppy", "def main(c: bool) -> int:", "    t = 0",
+            "    a_n = array(" + ", ".join(str(rng.randrange(9)) for _ in range(LEN["n"])) + ")",
+            "    a_m = array(" + ", ".join(str(rng.randrange(9)) for _ in range(LEN["m"])) + ")"]
+    for f in funcs:
+        for _ in range(rng.randrange(1, 3)):
+            args = call_args(f, {}, inside=False)
+            r = f"r{len(main)}"
+            main.append(f"    {r} = {f['name']}({', '.join(args)})")
+            if f["ret"] == "int":
+                main.append(f"    t += {r}")
+            elif f["ret"] == "Q":
+                main.append(f"    discard({r})")
+            elif f["ret"].startswith("array[int"):
+                main.append(f"    t += {r}[0]")
+    main += ["    return t + a_n[0] + a_m[0]", ""]
+    return "\n".join(hdr + [l for f in funcs for l in f["src"]] + main)
+
+
 def _programs(ctx):
     """yields (tag, src)"""
     if os.path.isdir(CORPUS):
@@ -443,6 +599,8 @@ def _programs(ctx):
         yield "structgen", gen_struct_program(ctx.rng)
     for _ in range(ctx.n(60, 900)):
         yield "dropgen", gen_drop_program(ctx.rng)
+    for _ in range(ctx.n(30, 700)):
+        yield "genericgen", gen_generic_program(ctx.rng)
     try:
         import c01_gen
     except Exception as e:  # noqa: BLE001
@@ -540,6 +698,26 @@ def _wiring_batch(ctx, cases) -> None:
             ctx.broke(f"correspondence Model/DFWiring.lean vs DFContainer on `{q}` (real={p} model={m})")
 
 
+# ----------------------------------------------------------------------------- variable scoping (T-run)
+def _varidx(ctx, cases) -> None:
+    import c01_varidx as X
+    reqs = [X.request(c) for c in cases]
+    model = ctx.driver(DRIVER, reqs)
+    for c, q, m in zip(cases, reqs, model):
+        try:
+            rep, _, rem, outs = X.real_run(c)
+        except Exception as e:  # noqa: BLE001
+            rep, rem, outs = f"exception:{type(e).__name__}:{e}", [], [f"exc:{type(e).__name__}"]
+        key = "varidx:" + "".join(c["kinds"]) + ":" + q
+        ctx.count(key, nontrivial=X.is_nontrivial(c), kind="varidx:" + ("no-context" if c["mono"] is None else "mono"))
+        bad = X.oracle(c, rem, outs)
+        if bad:
+            ctx.violation(key, f"partial monomorphization of parameters {c['kinds']} with mono vector {c['mono']}: " + "; ".join(bad[:3]),
+                          {"kind": "varidx", "case": c, "request": q, "real": rep, "model": m, "oracle": bad})
+        if rep != m:
+            ctx.broke(f"correspondence Model/DFVarIdx.lean vs compiler/core.py on `{q}` kinds={c['kinds']} (real={rep} model={m})")
+
+
 # ----------------------------------------------------------------------------- validator self-test, harvest
 _SELFTEST_EXPECT = {
     "drop-linear-link": "linear", "duplicate-linear-use": "linear", "ill-typed-link": "type",
@@ -623,6 +801,8 @@ def tie(ctx):
             _program_case(ctx, "replay", rp["src"])
         elif rp.get("kind") == "harvest":
             _harvest(ctx, [rp["test"]])
+        elif rp.get("kind") == "varidx":
+            _varidx(ctx, [rp["case"]])
         elif rp.get("kind") == "wiring":
             c = rp["case"]
             c = {"ty": _tup(c["ty"]), "ret": c["ret"], "script": [_tup(o) for o in c["script"]]}
@@ -633,6 +813,8 @@ def tie(ctx):
     t0 = time.time()
     _wiring(ctx, _wiring_cases(ctx, ctx.n(400, 12000)))
     ctx.extra["wiring_s"] = round(time.time() - t0, 1)
+    import c01_varidx as X
+    _varidx(ctx, [{"kinds": ["k", "n"], "mono": [1, 0]}] + [X.gen_case(ctx.rng) for _ in range(ctx.n(300, 5000))])
     t0 = time.time()
     for tag, src in _programs(ctx):
         _program_case(ctx, tag, src)
